@@ -307,6 +307,14 @@ def check_corruptions(spec, ctx):
     expect_refusal(ctx, "VariantInterval:wrong_alphabet", lambda: VariantInterval(a, b, "AZ#", "SNV"), lambda x: "accepted")
     expect_refusal(ctx, "VariantInterval:beyond_sequence", lambda: VariantInterval(a, n + 5, "A", "deletion", parent_or_seq_chunk_parent=P), valid_interval)
     expect_refusal(ctx, "VariantIntervalCollection:overlapping", lambda: VariantIntervalCollection([VariantInterval(a, b + 1, "A", "x"), VariantInterval(b, b + 2, "C", "x")]), valid_interval)
+    # ... whatever the phase sets of the overlapping variants (same set, different sets, one of them unphased), and also when a
+    # variant of another phase set is listed or located between them
+    for pb1, pb2 in ((1, 2), (1, None), (None, 3), (0, 0), (5, 5)):
+        expect_refusal(ctx, "VariantIntervalCollection:overlapping_phase_sets", lambda pb1=pb1, pb2=pb2: VariantIntervalCollection(
+            [VariantInterval(a, b + 1, "A", "x", phase_block=pb1), VariantInterval(b, b + 2, "C", "x", phase_block=pb2)]), lambda x: "overlapping variants accepted")
+    expect_refusal(ctx, "VariantIntervalCollection:overlapping_with_another_between", lambda: VariantIntervalCollection(
+        [VariantInterval(a, b + 3, "A", "x", phase_block=1), VariantInterval(a + 1 if a + 1 <= b else a, b + 2, "G", "y", phase_block=2), VariantInterval(b + 1, b + 4, "C", "x", phase_block=1)]),
+        lambda x: "overlapping variants accepted")
     expect_refusal(ctx, "VariantIntervalCollection:empty", lambda: VariantIntervalCollection([]), valid_interval)
     expect_refusal(ctx, "VariantIntervalCollection:duplicates", lambda: VariantIntervalCollection([VariantInterval(a, b, "A", "x"), VariantInterval(a, b, "A", "x")]), valid_interval)
     # --- annotation collections
